@@ -1,4 +1,5 @@
 import Qv.Proofs.C09
+import Qv.Proofs.C09Inj
 /-!
 # C09 — tensor-structure operations act on the subsystem indices they name
 
@@ -77,6 +78,26 @@ theorem indexer_single_spec (dims order : List Nat) (idx : Nat) (hp : Pos dims)
 example : Pos [2, 1, 3] ∧ [2, 0, 1].Perm (List.range [2, 1, 3].length) ∧ 5 < size [2, 1, 3] ∧
     single [2, 1, 3] (cumprod [2, 1, 3] [2, 0, 1]) 5 = 5 := by
   refine ⟨by intro d hd; simp at hd; omega, by decide, by decide, by decide⟩
+
+/-- **`_Indexer.single` is a permutation of the tensor indices**: two different indices in range are never
+sent to the same place, for every list of positive dimensions and every permutation of the subsystems —
+so the kernel `out[single r, single c] = M[r, c]` overwrites no entry (derived from `indexer_single_spec`:
+the digits are recovered from the re-encoded index, `encode_inj`, `encode_digits`). -/
+theorem indexer_single_injective (dims order : List Nat) (hp : Pos dims)
+    (hperm : order.Perm (List.range dims.length)) (i j : Nat) (hi : i < size dims) (hj : j < size dims)
+    (h : single dims (cumprod dims order) i = single dims (cumprod dims order) j) : i = j := by
+  rw [indexer_single_spec dims order i hp hperm hi, indexer_single_spec dims order j hp hperm hj] at h
+  exact singleSpec_injective dims order hp hperm i j hi hj h
+
+/-- and it stays inside the matrix -/
+theorem indexer_single_lt (dims order : List Nat) (idx : Nat) (hp : Pos dims)
+    (hperm : order.Perm (List.range dims.length)) (hi : idx < size dims) :
+    single dims (cumprod dims order) idx < size (newDims dims order) := by
+  rw [indexer_single_spec dims order idx hp hperm hi]
+  exact singleSpec_lt dims order idx hp hperm hi
+
+/-- non-vacuity: the images of all 6 indices under a genuine permutation are 6 different indices -/
+example : (List.range 6).map (single [2, 1, 3] (cumprod [2, 1, 3] [2, 0, 1])) = [0, 2, 4, 1, 3, 5] := by decide
 
 /-- TEST (kept as a regression sample of the theorem above): exhaustive agreement on small dimension lists. -/
 example : ∀ dims ∈ [[2, 3], [3, 2, 2], [2, 1, 3], [1, 1], [2, 2, 3]], ∀ order ∈ [[0, 1, 2], [2, 0, 1], [1, 0, 2], [2, 1, 0], [1, 0], [0, 1]],
